@@ -370,6 +370,26 @@ fn history(ctx: &Ctx, case: u64, r: &mut Rng, rep: &mut Report) {
             rep.violation(case, "twin:content-differs", "snapshot contents differ from the never-cached twin".to_string(), json!({"trace": trace}));
         }
     }
+    // last: another process forgets EVERY snapshot; a listing through the cached handle then has to empty the cached
+    // snapshot directory as well (an empty listing is a listing)
+    if r.chance(1, 2) {
+        if let Ok(repo) = plain.open() {
+            if let Ok(snaps) = repo.get_all_snapshots() {
+                let ids: Vec<_> = snaps.iter().map(|s| s.id).collect();
+                let _ = repo.delete_snapshots(&ids);
+            }
+        }
+        rep.evaluations += 1;
+        let listed = cached.open().and_then(|repo| repo.get_all_snapshots().map(|v| v.len()).map_err(|e| errstr(&e)));
+        if listed != Ok(0) {
+            rep.violation(case, "read-differs:listing-after-forgetting-all", format!("cached handle lists {listed:?} snapshots after all were forgotten"), json!({"trace": trace}));
+        }
+        for v in cache_invariant(&cache_root, &repo_id, &uni.state(0)).into_iter().take(2) {
+            let sig = if v.contains("no longer has") { "cache-invariant:stale-entry" } else { "cache-invariant:wrong-size" };
+            rep.violation(case, sig, format!("after all snapshots were forgotten and listed through the cached handle: {v}"), json!({"trace": trace}));
+        }
+        rep.count("histories_ending_with_every_snapshot_forgotten", 1);
+    }
     if case % 9 == 0 {
         rep.sample(json!({"trace": trace, "snapshots_at_end": sa.len(), "indexed_blobs_at_end": ba.len()}));
     }
@@ -381,7 +401,7 @@ pub fn run(ctx: &Ctx) -> (Report, Meta) {
     let rep = run_cases(ctx, ctx.tier.pick(60, 2500), &history);
     let meta = Meta {
         level: "exploration",
-        rule: "case = history of 4-9 commands (backup of an evolving tree, forget, prune incl. instant-delete and repack-all, merge) executed alternately through a handle with a private cache directory and a handle without cache on the SAME store, while a twin repository (same config and key) receives the same history never cached. After every command all read-type operations (snapshot listing, by-id and by-prefix lookups incl. ids removed meanwhile, direct get_file by id, `latest`, check, ls+dump of every snapshot) run through BOTH handles and must return equal values or both fail; after the listing the cache directory may hold no snapshot/index id the store does not list and no file of another size. Truncated copies (snapshot and index files, and the tree packs the cache holds), entries for ids the repository never had, temp leftovers, non-id names and another repository's directory are planted in the cache. At the end the semantic content (snapshots, indexed blob set, marked packs, snapshot contents) must equal the twin's. distinct_nontrivial = distinct (command kind, handle)".to_string(),
+        rule: "case = history of 4-9 commands (backup of an evolving tree, forget, prune incl. instant-delete and repack-all, merge) executed alternately through a handle with a private cache directory and a handle without cache on the SAME store, while a twin repository (same config and key) receives the same history never cached. After every command all read-type operations (snapshot listing, by-id and by-prefix lookups incl. ids removed meanwhile, direct get_file by id, `latest`, check, ls+dump of every snapshot) run through BOTH handles and must return equal values or both fail; after the listing the cache directory may hold no snapshot/index id the store does not list and no file of another size. Truncated copies (snapshot and index files, and the tree packs the cache holds), entries for ids the repository never had, temp leftovers, non-id names and another repository's directory are planted in the cache. At the end of half of the histories every snapshot is forgotten through the uncached handle and listed through the cached one (the cached snapshot directory must be empty then). Before that the semantic content (snapshots, indexed blob set, marked packs, snapshot contents) must equal the twin's. distinct_nontrivial = distinct (command kind, handle)".to_string(),
         exhaustive: false,
         assumptions: vec!["both handles live in one process; 'another process' is modelled by the uncached handle changing the store between operations of the cached one".to_string()],
     };
